@@ -138,9 +138,28 @@ def raise_condition_table(fn: ast.AST, raises: list[ast.AST], atoms: list[str],
     of each statement (if/elif/else nesting plus early exits)."""
     from .absint.booltab import atoms_of, evaluate
 
+    # copy propagation for names bound exactly once in `fn` (`used = scope.used(x)` ... `if used and ...`), so that
+    # a test spelled through a local means the same atom as the test spelled inline
+    binds: dict[str, list[ast.expr | None]] = {}
+    for n in ast.walk(fn):
+        if isinstance(n, ast.Assign) and len(n.targets) == 1 and isinstance(n.targets[0], ast.Name):
+            binds.setdefault(n.targets[0].id, []).append(n.value)
+        elif isinstance(n, ast.Name) and isinstance(n.ctx, (ast.Store, ast.Del)):
+            binds.setdefault(n.id, []).append(None)
+    # an ast.Assign target is also seen as a Store name: a single binding shows up as [value, None]
+    single = {k: v[0] if v[0] is not None else v[1] for k, v in binds.items() if len(v) == 2 and (v[0] is None) != (v[1] is None)}
+    known0 = known
+
+    def known(x: ast.expr, _depth: int = 0):  # noqa: F811
+        k = known0(x)
+        if k is None and isinstance(x, ast.Name) and x.id in single and _depth < 4:
+            return known(single[x.id], _depth + 1)
+        return k
+
     atomize = generic_atomizer(known)
     per_raise = []
     free: list[str] = []
+    extra: list[str] = []
     for r in raises:
         gs = lexical_guards(fn, r) or []
         per_raise.append(gs)
@@ -148,14 +167,18 @@ def raise_condition_table(fn: ast.AST, raises: list[ast.AST], atoms: list[str],
             for a in atoms_of(e, atomize):
                 if a.startswith("?") and a not in free:
                     free.append(a)
-    if len(free) > 10:
+                elif not a.startswith("?") and a[1:] not in atoms and a[1:] not in extra:
+                    extra.append(a[1:])  # a recognised atom the caller did not ask about: quantified like an unknown one
+    if len(free) + len(extra) > 10:
         raise ValueError("too many unknown guard atoms")
     out: dict[tuple[bool, ...], str] = {}
     for vals in itertools.product([False, True], repeat=len(atoms)):
         env0 = dict(zip(atoms, vals))
         reached = []
-        for fv in itertools.product([False, True], repeat=len(free)):
+        for fv in itertools.product([False, True], repeat=len(free) + len(extra)):
             env = dict(zip(free, fv))
+            for x, v in zip(extra, fv[len(free):]):
+                env["+" + x], env["-" + x] = v, not v
             hit = False
             for gs in per_raise:
                 ok = True
